@@ -588,6 +588,14 @@ func w3Gen(r *rand.Rand, prop, tier string) *simrt.Case {
 		c.Program = append(c.Program, simrt.Op{Actor: 60, Kind: "sleep", A: int64(r.IntN(300))}, simrt.Op{Actor: 60, Kind: "start-routers"})
 		c.Program = append(c.Program, simrt.Op{Actor: 100, Kind: "check-routes"})
 		faults("etcd.watch.close", "etcd.slow", "etcd.unavail")
+		if r.IntN(3) == 0 {
+			// a router's watch stream breaks and etcd compacts the events it had pending: only a full read gives
+			// the table back; that read (the proxy's range requests) may itself fail a few times
+			c.Faults = append(c.Faults, simrt.Fault{Kind: "etcd.watch." + pk3(r, "compact", "compact", "close"), Op: "etcd.watch.deliver", Key: "@proxy", Nth: r.IntN(6), Count: 1})
+			if r.IntN(2) == 0 {
+				c.Faults = append(c.Faults, simrt.Fault{Kind: "etcd.unavail", Op: "etcd.range", Key: "@proxy", Nth: 2 + r.IntN(3), Count: 1 + r.IntN(2)})
+			}
+		}
 		if r.IntN(4) == 0 {
 			// a router's watch or reload goroutine gets its lock late
 			for k := 0; k < 1+r.IntN(2); k++ {
